@@ -645,31 +645,35 @@ open Ldk.Merkle (Rec)
     other than the metadata record itself (and the issuer id when the signing key is derived), and
     every experimental offer record, is part of the MAC input — so by `metadata_verify_iff` altering,
     adding or removing any of them changes the metadata that verifies (unless the MAC collides). -/
-theorem offer_covered_complete (d : Bool) (rs : List Rec) (hasc : rs.Pairwise (fun a b => a.ty < b.ty))
+theorem offer_covered_complete (rd d : Bool) (rs : List Rec) (hasc : rs.Pairwise (fun a b => a.ty < b.ty))
     (r : Rec) (hr : r ∈ rs)
     (hin : (1 ≤ r.ty ∧ r.ty < 80 ∧ r.ty ≠ 4 ∧ (r.ty ≠ 22 ∨ d = false)) ∨
            (1000000000 ≤ r.ty ∧ r.ty < 2000000000)) :
-    r ∈ offerCovered d rs := by
+    r ∈ offerCovered rd d rs := by
   unfold offerCovered
   rcases hin with ⟨h1, h2, h3, h4⟩ | ⟨h1, h2⟩
   · apply List.mem_append_left
     rw [List.mem_filter]
     refine ⟨mem_rangeRecs _ _ rs r hasc hr h1 h2, ?_⟩
-    simp only [OFFER_METADATA_TYPE, OFFER_ISSUER_ID_TYPE, bne_iff_ne, ne_eq, Bool.and_eq_true,
-      Bool.or_eq_true, Bool.not_eq_true', decide_eq_true_eq]
-    exact ⟨h3, h4⟩
+    unfold C18Meta.offerRecordCovered
+    simp only [C18Meta.OFFER_METADATA_TYPE, C18Meta.OFFER_ISSUER_ID_TYPE]
+    rcases h4 with h4 | h4
+    · simp [h3, h4]
+    · subst h4; simp [h3]
   · exact List.mem_append_right _ (mem_rangeRecs _ _ rs r hasc hr h1 h2)
 
 /-- Coverage, negative half (the model-level content of KNOWN FINDING KF-C18-1): the metadata
     record (type 4) is never part of the MAC input … -/
-theorem offer_metadata_record_not_covered (d : Bool) (rs : List Rec) :
-    ∀ r ∈ offerCovered d rs, r.ty ≠ 4 := by
+theorem offer_metadata_record_not_covered (rd d : Bool) (rs : List Rec) :
+    ∀ r ∈ offerCovered rd d rs, r.ty ≠ 4 := by
   intro r hr
   unfold offerCovered at hr
   rcases List.mem_append.mp hr with h | h
   · have := (List.mem_filter.mp h).2
-    simp only [OFFER_METADATA_TYPE, bne_iff_ne, ne_eq, Bool.and_eq_true] at this
-    exact this.1
+    unfold C18Meta.offerRecordCovered at this
+    simp only [C18Meta.OFFER_METADATA_TYPE] at this
+    intro h4
+    simp [h4] at this
   · have := (rangeRecs_in_range _ _ rs r h).1
     simp only [EXPERIMENTAL_OFFER_TYPES_LO] at this
     omega
@@ -678,14 +682,14 @@ theorem offer_metadata_record_not_covered (d : Bool) (rs : List Rec) :
     the verdict depends on the stream only through the covered records and the issuer id.  Hence a
     copy of such an offer with a metadata record ADDED (or changed) still verifies. -/
 theorem offer_recipient_data_ignores_metadata_record (pubOf : Bytes → Bytes) (key nonce : Bytes)
-    (rs rs' : List Rec) (hc : offerCovered true rs = offerCovered true rs')
+    (rs rs' : List Rec) (hc : offerCovered true true rs = offerCovered true true rs')
     (hk : rs.find? (fun r => r.ty == OFFER_ISSUER_ID_TYPE) = rs'.find? (fun r => r.ty == OFFER_ISSUER_ID_TYPE)) :
     offerVerify mac pubOf key (some nonce) rs = offerVerify mac pubOf key (some nonce) rs' := by
   unfold offerVerify
-  simp only [hc, hk]
+  simp only [Option.isSome_some, C18Meta.derivesRecipientKeys, if_true, hc, hk]
 
 /-- concrete instance: issuer id record alone vs. the same with a 2-byte metadata record in front -/
-example : offerCovered true [⟨[22], [22, 1, 9]⟩] = offerCovered true [⟨[4], [4, 2, 7, 7]⟩, ⟨[22], [22, 1, 9]⟩] := by
+example : offerCovered true true [⟨[22], [22, 1, 9]⟩] = offerCovered true true [⟨[4], [4, 2, 7, 7]⟩, ⟨[22], [22, 1, 9]⟩] := by
   decide
 
 /-- Payer side: on an ascending invoice stream every record of the offer range 1..80, of the
